@@ -48,6 +48,8 @@ def parse_fn(t, pos):
         d["ip"] = int(t[pos]); d["c"] = fl(t[pos + 1]); pos += 2
     elif kind == "sat":
         d["s"] = fl(t[pos]); d["c"] = fl(t[pos + 1]); pos += 2
+    elif kind == "at":
+        d["t"] = fl(t[pos]); d["v"] = fl(t[pos + 1]); d["inner"], pos = parse_fn(t, pos + 2)
     elif kind in ("nanle", "nange"):
         d["t"] = fl(t[pos]); d["inner"], pos = parse_fn(t, pos + 1)
     else:
@@ -99,6 +101,13 @@ def feval(d, x):
     if k == "sat":
         s, c = Fraction(d["s"]), Fraction(d["c"])
         return (x - s) / (1 + abs(x - s)) - c, (abs(x) + abs(s)) / (1 + abs(x - s)) + abs(c)
+    if k == "at":
+        if x == Fraction(d["t"]):
+            v = d["v"]
+            if math.isnan(v):
+                return None
+            return (v, 1.0) if math.isinf(v) else (Fraction(v), abs(Fraction(v)))
+        return feval(d["inner"], x)
     if k == "nanle":
         return None if x <= Fraction(d["t"]) else feval(d["inner"], x)
     if k == "nange":
@@ -152,6 +161,8 @@ def fn_str(d):
         return "%s %d %s" % (k, d["ip"], hx(d["c"]))
     if k == "sat":
         return "sat %s %s" % (hx(d["s"]), hx(d["c"]))
+    if k == "at":
+        return "at %s %s %s" % (hx(d["t"]), hx(d["v"]), fn_str(d["inner"]))
     if k in ("nanle", "nange"):
         return "%s %s %s" % (k, hx(d["t"]), fn_str(d["inner"]))
     return "%s %s %s %s" % (k, hx(d["w"]), hx(d["s"]), hx(d["c"]))
@@ -409,6 +420,19 @@ def generate(tier, seed, ctx):
                             if not double_zero(d, a) or double_zero(d, e):
                                 continue
                             add(d, a, e, w * rng.choice([2.0 ** -20, 2.0 ** -6, 0.25]), "guard/zero-end-exact/%d" % len(inner))
+    # 7b. deterministic: the full cross product of end-value classes {neg, pos, zero, NaN, +inf, -inf} at the two
+    #     ends (findRoot_guard_table), both orders, over inner functions with and without an interior root -------
+    endvals = [("neg", -1.5), ("pos", 2.0), ("zero", 0.0), ("nan", math.nan), ("pinf", math.inf), ("ninf", -math.inf)]
+    for (a, b) in ((0.0, 2.0), (-3.0, -0.5), (0.25, 4.0)):
+        m0 = (a + b) / 2 + (b - a) / 8
+        inners = [dict(kind="poly", p=[-m0, 1.0]), dict(kind="poly", p=[m0, -1.0]), dict(kind="poly", p=[1.0, 0.0, 1.0]),
+                  dict(kind="poly", p=poly_from_roots([m0, m0 - (b - a) / 4]))]
+        for (nl, vl) in endvals:
+            for (nr, vr) in endvals:
+                for inner in inners:
+                    d = dict(kind="at", t=a, v=vl, inner=dict(kind="at", t=b, v=vr, inner=inner))
+                    add(d, a, b, (b - a) * 2.0 ** -rng.randint(4, 30), "guard/ends/%s-%s" % (nl, nr),
+                        oracle_only=("inf" in nl or "inf" in nr))
     # 7. guards: zero ends, no sign change, NaN ends -----------------------------------------------------------
     for _ in range(50 * N):
         r0 = dyadic(rng, -8, 8, 2); other = r0 + rng.choice([-1, 1]) * rng.choice([0.5, 1.0, 2.25])
